@@ -23,7 +23,7 @@ Init ==
   \E v \in 0..(t.nvar - 1), ft \in (IF t.gen THEN {"f32", "f64"} ELSE {"f64"}), fm \in FmtSeqs, d \in 1..MaxData,
      w \in (IF t.wide THEN {0, 1, 2} ELSE {0}) :
     \* data seeds only matter where something is fitted or drawn
-    /\ (t.role = "plain" => d = 1)
+    /\ (t.role \in {"plain", "sweep"} => d = 1)
     \* wide cases (8..12 features, all calling forms): chains up to MaxWideChain
     /\ (w >= 1 => Len(fm) <= MaxWideChain)
     /\ case = [kind |-> t.role,
